@@ -120,6 +120,23 @@ func (c *Ctx) RunDocs(fams []string, fn DocFn) {
 			workload.W1(c.Thorough(), sink)
 		case "W1F":
 			workload.W1Followers(sink)
+		case "W6docs":
+			// the special number literals (ties, 800-digit expansions, overflow threshold, ...) as
+			// members of documents; literals with more than 800 integer-part digits are left to C04,
+			// whose oracle is exact there (strconv is not, DESIGN.md section 9)
+			wc := &h.Case{Family: "W6d"}
+			workload.W6Special(func(cs *h.Case) {
+				lit := string(cs.Input)
+				if intPartDigits(lit) > 800 {
+					return
+				}
+				for wi, w := range [][2]string{{"[", "]"}, {`{"n":`, "}"}, {"[0.5,", ",-1e2]"}} {
+					wc.Input = []byte(w[0] + lit + w[1])
+					wc.Desc = fmt.Sprintf("special literal (%s) wrapped as %q..%q", trunc(cs.Describe()), w[0], w[1])
+					wc.P = [4]int{wi, 0, 0, 0}
+					sink(wc)
+				}
+			})
 		case "W2":
 			if c.Thorough() {
 				workload.W2(1, c.Seed, sink)
